@@ -76,7 +76,7 @@ func (x *Exec) strictWeakOrder(st *State, fr *Frame, in ssa.Instruction, n strin
 
 // permute replaces the n elements at off.. of backing array arr (element type et) by a permutation
 // of themselves; returns names of the permutation functions (new index -> old index and inverse).
-func (x *Exec) permute(st *State, et types.Type, arr, off, n string) (pi, rho string) {
+func (x *Exec) permute(st *State, et types.Type, arr, off, n string) (pi, rho, sorted string) {
 	name, srt := x.arrName(et)
 	A := x.getArr(st, name, srt)
 	es := x.sortOf(et)
@@ -94,7 +94,7 @@ func (x *Exec) permute(st *State, et types.Type, arr, off, n string) (pi, rho st
 	x.assume(st, "(forall (("+i+" Int)) (! (=> (and (<= 0 "+i+") (< "+i+" "+n+")) (= (select "+B+" (at "+off+" "+i+")) (select "+nb+" (at "+off+" ("+rho+" "+i+"))))) :pattern ((select "+B+" (at "+off+" "+i+")))))")
 	x.setArr(st, name, srt, app("store", A, arr, nb))
 	x.sumsPreserved(st, et, B, nb, off, n)
-	return
+	return pi, rho, nb
 }
 
 func sortSliceModel(stable bool) modelFn {
@@ -124,7 +124,7 @@ func sortSliceModel(stable bool) modelFn {
 		x.safeOnIndices(st, fr, in, lessV, n, 2)
 		x.strictWeakOrder(st, fr, in, n, mk(st), "sort comparator")
 		x.frameCheck(st, fr, arr, in)
-		pi, _ := x.permute(st, et, arr, off, n)
+		pi, _, _ := x.permute(st, et, arr, off, n)
 		less2 := mk(st)
 		i, j := x.fresh("i"), x.fresh("j")
 		x.assume(st, "(forall (("+i+" Int) ("+j+" Int)) (=> (and (<= 0 "+i+") (< "+i+" "+j+") (< "+j+" "+n+")) "+not(less2(j, i))+"))")
